@@ -4,8 +4,16 @@
 package main
 
 import (
+	"bufio"
+	"bytes"
 	"fmt"
+	"os"
+	"os/exec"
+	"strings"
+	"sync"
 	"time"
+
+	"git.sr.ht/~rockorager/vaxis/ansi"
 
 	"git.sr.ht/~rockorager/vaxis"
 	"verifharness/fakeconsole"
@@ -13,7 +21,54 @@ import (
 	"verifharness/hx"
 )
 
-func main() { hx.Main("C04", run) }
+func main() {
+	if len(os.Args) >= 4 && os.Args[1] == "-panicchild" {
+		panicChild(os.Args[2], os.Args[3])
+		return
+	}
+	hx.Main("C04", run)
+}
+
+// panicChild runs in a child process: a session whose input goroutine panics (an injected CSI t
+// report whose parameters are empty lists makes handleSequence index out of range). The recover
+// arm calls Close and re-panics, which kills this process; every write is mirrored to stdout as a
+// hex line so the parent can judge what reached the terminal.
+func panicChild(maskStr, dm string) {
+	var mask uint32
+	fmt.Sscanf(maskStr, "%d", &mask)
+	caps := fakeconsole.FromMask(mask)
+	fc := fakeconsole.New(12, 5, caps)
+	out := bufio.NewWriter(os.Stdout)
+	var mu sync.Mutex
+	fc.Mirror = func(p []byte) {
+		mu.Lock()
+		fmt.Fprintf(out, "W %s\n", hx.Hex(string(p)))
+		out.Flush()
+		mu.Unlock()
+	}
+	vx, err := vaxis.New(vaxis.Options{WithConsole: fc, NoSignals: true, DisableMouse: dm == "1"})
+	if err != nil {
+		os.Exit(3)
+	}
+	c, kf, ucs, app := vx.VerifCaps()
+	env := []byte{b01(c["kittyKeyboard"]), b01(c["sixels"]), b01(c["unicodeCore"]), b01(c["explicitWidth"]), b01(c["colorThemeUpdates"]),
+		b01(c["inBandResize"]), b01(c["osc176"]), b01(c["synchronizedUpdate"]), b01(c["disableMouse"])}
+	mu.Lock()
+	fmt.Fprintf(out, "E env %s %d %d %s\n", env, kf, ucs, hx.Hex(app))
+	out.Flush()
+	mu.Unlock()
+	vx.Window().SetCell(1, 1, vaxis.Cell{Character: vaxis.Character{Grapheme: "x"}, Style: vaxis.Style{Attribute: vaxis.AttrBold, Hyperlink: "http://x"}})
+	vx.ShowCursor(2, 2, vaxis.CursorBeam)
+	vx.SetMouseShape(vaxis.MouseShapeClickable)
+	vx.Render()
+	mu.Lock()
+	fmt.Fprintf(out, "P\n") // everything after this line is written by the panic path
+	out.Flush()
+	mu.Unlock()
+	vx.VerifInjectSequence(ansi.CSI{Final: 't', Parameters: [][]int{{}, {}, {}}})
+	time.Sleep(2 * time.Second) // the re-panic ends the process long before this
+	os.Exit(4)                  // the input goroutine did not die: no panic happened
+}
 
 // capability bits of fakeconsole.CapNames that matter for start-up / shutdown
 var bits = []int{4 /*kittyKeyboard*/, 0 /*sixel*/, 2 /*unicodeCore*/, 15 /*explicitWidth*/, 3 /*colorTheme*/, 14 /*inBandResize*/, 11 /*osc176*/, 1 /*sync*/}
@@ -156,6 +211,8 @@ func session(r *hx.Run, rng *gen.Rng, id string, sub uint32, disableMouse bool, 
 			return nil
 		}
 		r.Emit("closesuspended", hx.Hex(string(fc.Take())))
+	case 4:
+		// handled by panicSession (child process)
 	case 2:
 		frames(1 + rng.Intn(3))
 		// Close triggered by a termination signal: runs on the input goroutine
@@ -172,6 +229,60 @@ func session(r *hx.Run, rng *gen.Rng, id string, sub uint32, disableMouse bool, 
 		}
 		r.Emit(fmt.Sprintf("closeby signal %d %d", bi(cnv), bi(clv)), hx.Hex(string(fc.Take())))
 	}
+	return nil
+}
+
+// panicSession: the library's own input goroutine panics (child process, see panicChild).
+func panicSession(r *hx.Run, id string, mask uint32, dm bool) error {
+	cmd := exec.Command(os.Args[0], "-panicchild", fmt.Sprint(mask), map[bool]string{true: "1", false: "0"}[dm])
+	var stdout bytes.Buffer
+	cmd.Stdout = &stdout
+	err := cmd.Run()
+	code := 0
+	if ee, ok := err.(*exec.ExitError); ok {
+		code = ee.ExitCode()
+	}
+	var env string
+	var before, after []string
+	seenP := false
+	for _, l := range strings.Split(stdout.String(), "\n") {
+		switch {
+		case strings.HasPrefix(l, "E "):
+			env = l[2:]
+		case l == "P":
+			seenP = true
+		case strings.HasPrefix(l, "W "):
+			h := l[2:]
+			if h == "-" {
+				h = ""
+			}
+			if seenP {
+				after = append(after, h)
+			} else {
+				before = append(before, h)
+			}
+		}
+	}
+	if env == "" {
+		return fmt.Errorf("panic child produced no env line (exit %d)", code)
+	}
+	r.Case(id)
+	r.Emit(env, "-")
+	j := func(l []string) string {
+		s := strings.Join(l, "")
+		if s == "" {
+			return "-"
+		}
+		return s
+	}
+	r.Emit("bytes", j(before))
+	if code == 4 || !seenP {
+		r.Emit("closeby panic 1 1", "nopanic")
+		r.Count("panic-not-provoked")
+		return nil
+	}
+	r.Emit("closeby panic 1 1", j(after))
+	r.Count("panic-sessions")
 	return nil
 }
 
@@ -196,6 +307,13 @@ func run(r *hx.Run) error {
 				}
 				n++
 			}
+		}
+	}
+	// input-goroutine panic: a handful of configurations (each costs a process)
+	panics := []uint32{0, 1<<4 | 1<<1, 1<<0 | 1<<2 | 1<<3 | 1<<14 | 1<<11, 1<<4 | 1<<0 | 1<<2 | 1<<15 | 1<<3 | 1<<14 | 1<<11 | 1<<1}
+	for i, m := range panics {
+		if err := panicSession(r, fmt.Sprintf("panic-%d", i), m, i%2 == 1); err != nil {
+			return err
 		}
 	}
 	r.Note("sessions", n)
